@@ -75,12 +75,14 @@ DlComplaints(outs) ==
 Init == k = 0 /\ j = 0 /\ amf = AmfInit /\ nbad = 0 /\ notes = <<>> /\ phase = "run" /\ result = [kind |-> "none"]
 Step ==
    /\ phase = "run"
-   /\ LET ev == Recv(k) IN
+   \* ev and r are bound by a quantifier over a singleton: TLC evaluates an action-level LET again at every use, which would receive the
+   \* message and run the whole AMF (key derivations, protection, encoding) once per conjunct below
+   /\ \E ev \in {Recv(k)} :
       IF ev.kind = "msg" THEN
-         LET r == AmfHandle(amf, ev.bytes)
-             noteStr == r.note IN
+         \E r \in {AmfHandle(amf, ev.bytes)} : \E dlBad \in {DlComplaints(r.out)} :
+         LET noteStr == r.note IN
          /\ (IF Faulted THEN TRUE ELSE PrintAll(r.complaints, k, noteStr))
-         /\ PrintAll(DlComplaints(r.out), k, "Model")
+         /\ PrintAll(dlBad, k, "Model")
          /\ (IF Fault.kind = "garbage" /\ Fault.at >= j /\ Fault.at < j + Len(r.out) /\ NgapDecode(Garbage(r.out[Fault.at - j + 1])).ok
              THEN PrintT("REJECT line=" \o ToString(k) \o " id=" \o ToString(k) \o " ev=Final why=HARNESS: the garbage is a decodable NGAP PDU for the specification")
              ELSE TRUE)
